@@ -278,15 +278,34 @@ Section Apply.
          | None => None
          end.
 
-  Definition apply (d : db) (src dst : root) (wl : writelog) : db * acode :=
+  (* last finalized version of the database, if any *)
+  Definition is_finalized (fin : option N) (v : N) : bool :=
+    match fin with Some f => v <=? f | None => false end.
+
+  Definition apply (strict : bool) (fin : option N) (d : db) (src dst : root) (wl : writelog) : db * acode :=
     if negb (follows dst src) then (d, AFollow)               (* root_cache.go:32-34 *)
     else if has_root d dst then (d, AOk)                      (* root_cache.go:39, bypass *)
     else match open_root d src with
-         | None => (d, AOther)                                (* start root unknown *)
+         | None =>
+             (* The start root is unknown.  NewWithRoot only records the hash; the first
+                Insert/Remove dereferences it and fails (ErrNodeNotFound).  With an empty
+                log nothing is dereferenced: the computed root is the start hash itself,
+                and when that is the expected one the database batch refuses the unknown
+                old root (badger.go:1087-1095).  [strict]: pathbadger checks that the old
+                root exists already when the batch is opened (pathbadger.go:683-698), i.e.
+                before the comparison. *)
+             match wl with
+             | [] => if strict then (d, AOther)
+                     else if digest_eqb (r_hash src) (r_hash dst) then (d, AOther) else (d, AMismatch)
+             | _ :: _ => (d, AOther)
+             end
          | Some old =>
              let new := apply_writelog old wl in              (* root_cache.go:44 *)
              if digest_eqb (root_of new) (r_hash dst)         (* commit.go:31-33, 92-96 *)
-             then (d ++ [(dst, new)], AOk)                    (* commit.go:116-138 *)
+             then if is_finalized fin (r_version dst)
+                  then (d, AOther)      (* batch.Commit: ErrAlreadyFinalized (badger.go:1030-1034,
+                                           pathbadger.go:877-881), after the comparison *)
+                  else (d ++ [(dst, new)], AOk)               (* commit.go:116-138 *)
              else (d, AMismatch)                              (* root_cache.go:51-52 *)
          end.
 End Apply.
@@ -309,12 +328,12 @@ Record attempt := mkAttempt { at_src : croot; at_dst : croot; at_wl : writelog }
 
 (* run the attempts in order on one database; report the code and whether the
    expected root is stored afterwards *)
-Fixpoint run_attempts (d : db kvmap) (l : list attempt) : list (acode * bool) :=
+Fixpoint run_attempts (strict : bool) (fin : option N) (d : db kvmap) (l : list attempt) : list (acode * bool) :=
   match l with
   | [] => []
   | a :: r =>
-      let (d', c) := capply d (at_src a) (at_dst a) (at_wl a) in
-      (c, has_root kvmap kvmap_eqb (fun m => m) d' (at_dst a)) :: run_attempts d' r
+      let (d', c) := capply strict fin d (at_src a) (at_dst a) (at_wl a) in
+      (c, has_root kvmap kvmap_eqb (fun m => m) d' (at_dst a)) :: run_attempts strict fin d' r
   end.
 
 (* one case: contents at the start root, the batch, the state of the second
@@ -323,6 +342,8 @@ Record wcase := mkCase {
   c_old : kvmap;
   c_ops : list op;
   c_db2 : db kvmap;
+  c_strict : bool;           (* the second database is pathbadger *)
+  c_fin : option N;          (* last finalized version of the second database *)
   c_attempts : list attempt;
   c_queries : list (backend * N * fstate)   (* GetWriteLog calls made for this pair *)
 }.
@@ -348,7 +369,7 @@ Definition run_case (c : wcase) : wobs :=
          | Some wl' => list_eqb entry_eqb wl wl'
          | None => false
          end)
-        (run_attempts (c_db2 c) (c_attempts c)).
+        (run_attempts (c_strict c) (c_fin c) (c_db2 c) (c_attempts c)).
 
 Definition att_eqb (a b : acode * bool) : bool :=
   acode_eqb (fst a) (fst b) && Bool.eqb (snd a) (snd b).
